@@ -159,14 +159,15 @@ def tchildStep (t : TSys) (i : Nat) : Option TSys :=
     else (childStep t.sys i).map fun s => { t with sys := s, sigPending := noteChld t s }
   | none => none
 
-/-- the `k`-th sender entry fires: `kill -s SIG $$` in a live child.  A trapped signal becomes pending at the
+/-- the `k`-th sender entry fires: `kill -s SIG $$` in a live child (the first unsent entry of that child).  A trapped signal becomes pending at the
     shell (once: pending signals are a set); any other is ignored here. -/
 def tsendStep (t : TSys) (k : Nat) : Option TSys :=
   match t.senders[k]? with
   | some (i, σ) =>
     match t.sys.children[i]? with
     | some c =>
-      if c.state.isAlive then
+      -- program order: the entries of one child fire in list order
+      if c.state.isAlive && !(t.senders.take k).any (fun e => e.1 == i) then
         some { t with senders := t.senders.eraseIdx k,
                       sigPending := if t.traps.contains σ && !t.sigPending.contains σ
                                     then t.sigPending ++ [σ] else t.sigPending }
